@@ -17,7 +17,9 @@ func arr(e *spec.Type) *spec.Type {
 func mp(k string, e *spec.Type) *spec.Type {
 	return &spec.Type{Kind: spec.Map, Key: &spec.Attr{Type: prim(k)}, Elem: &spec.Attr{Type: e}}
 }
-func fld(tag int, name string, t *spec.Type) *spec.Attr { return &spec.Attr{Name: name, Tag: tag, Type: t} }
+func fld(tag int, name string, t *spec.Type) *spec.Attr {
+	return &spec.Attr{Name: name, Tag: tag, Type: t}
+}
 func obj(required []string, attrs ...*spec.Attr) *spec.Type {
 	return &spec.Type{Kind: spec.Object, Attrs: attrs, Required: required}
 }
@@ -81,6 +83,7 @@ func matrix() []*spec.Spec {
 	line := utype("Line", obj([]string{"from"}, fld(1, "from", ref("Point")), fld(2, "to", ref("Point")), fld(5, "tags", arr(prim(spec.String)))))
 	var out []*spec.Spec
 	add := func(s *spec.Spec) { out = append(out, s) }
+	val := func(a *spec.Attr, v *spec.Val) *spec.Attr { a.Val = v; return a }
 
 	reqNames := []string{}
 	for _, k := range prims {
@@ -117,6 +120,17 @@ func matrix() []*spec.Spec {
 	add(design("oneof", []*spec.UserType{point}, svc("unions",
 		meth("m", body(obj(nil, fld(1, "id", prim(spec.String)), &spec.Attr{Name: "choice", Type: union(fld(2, "s", prim(spec.String)), fld(3, "n", prim(spec.Int)), fld(4, "pt", ref("Point")), fld(5, "raw", prim(spec.Bytes)))})),
 			body(obj(nil, &spec.Attr{Name: "value", Type: union(fld(7, "flag", prim(spec.Boolean)), fld(9, "ratio", prim(spec.Float64)))}))))))
+	add(design("oneof-same-name-twice", nil, svc("unions2",
+		meth("a", body(obj(nil, &spec.Attr{Name: "choice", Type: union(fld(1, "count", prim(spec.String)), fld(2, "flag", prim(spec.Boolean)))})), nil),
+		meth("b", body(obj(nil, &spec.Attr{Name: "choice", Type: union(fld(1, "count", prim(spec.Float32)), fld(2, "flag", prim(spec.Boolean)))})), nil))))
+	add(design("oneof-same-member-type", []*spec.UserType{point}, svc("unions3",
+		meth("m", body(obj(nil, &spec.Attr{Name: "choice", Type: union(fld(1, "from", ref("Point")), fld(2, "to", ref("Point")))})), nil))))
+	inner := utype("Inner", obj(nil, fld(1, "v", mp(spec.String, prim(spec.String)))))
+	// Inner (which holds a map) is reached twice from Mid, once through a map: goa's depth computation marks it as
+	// seen the first time and gives both enclosing loops the same variable name
+	mid := utype("Mid", obj(nil, fld(1, "direct", ref("Inner")), fld(2, "inners", mp(spec.String, ref("Inner")))))
+	add(design("nested-map-of-user-types", []*spec.UserType{inner, mid}, svc("maps2",
+		meth("m", body(obj(nil, fld(1, "mids", mp(spec.String, ref("Mid"))))), nil))))
 	add(design("metadata", nil, svc("meta_svc",
 		meth("m", body(obj([]string{"token"}, fld(1, "token", prim(spec.String)), fld(2, "trace", prim(spec.String)), fld(3, "data", prim(spec.String)))),
 			body(obj(nil, fld(1, "data", prim(spec.String)))),
@@ -128,7 +142,9 @@ func matrix() []*spec.Spec {
 	add(design("metadata-nonstring", nil, svc("meta_ns",
 		meth("m", body(obj([]string{"n"}, fld(1, "n", prim(spec.Int32)), fld(2, "flag", prim(spec.Boolean)), fld(3, "f", prim(spec.Float64)), fld(4, "u", prim(spec.UInt64)), fld(5, "data", prim(spec.String)))),
 			nil, metadata(spec.Loc{Attr: "n"}, spec.Loc{Attr: "flag"}, spec.Loc{Attr: "f"}, spec.Loc{Attr: "u"})))))
-	o := func() *spec.Attr { return body(obj([]string{"a"}, fld(1, "a", prim(spec.String)), fld(2, "n", prim(spec.Int)))) }
+	o := func() *spec.Attr {
+		return body(obj([]string{"a"}, fld(1, "a", prim(spec.String)), fld(2, "n", prim(spec.Int))))
+	}
 	add(design("streaming", nil, svc("streams",
 		meth("server", o(), o(), stream("server", nil)),
 		meth("client", nil, o(), stream("client", o())),
@@ -152,7 +168,6 @@ func matrix() []*spec.Spec {
 		meth("m", body(obj(nil, dflt(fld(1, "s", prim(spec.String)), vtree.S("dflt")), dflt(fld(2, "n", prim(spec.Int)), vtree.I(3)), dflt(fld(3, "f", prim(spec.Float64)), vtree.F(1.5)),
 			dflt(fld(4, "b", prim(spec.Boolean)), vtree.B(true)), dflt(fld(5, "u", prim(spec.UInt32)), vtree.U(0)), dflt(fld(6, "e", prim(spec.String)), vtree.S("")))),
 			body(obj(nil, dflt(fld(1, "s", prim(spec.String)), vtree.S("r")), dflt(fld(2, "n", prim(spec.Int64)), vtree.I(7))))))))
-	val := func(a *spec.Attr, v *spec.Val) *spec.Attr { a.Val = v; return a }
 	add(design("validations", []*spec.UserType{point}, svc("vals",
 		meth("m", body(obj([]string{"s"}, val(fld(1, "s", prim(spec.String)), &spec.Val{MinLen: &two, MaxLen: &five}), val(fld(2, "n", prim(spec.Int)), &spec.Val{Min: &min1, Max: &max9}),
 			val(fld(3, "e", prim(spec.String)), &spec.Val{Enum: []any{vtree.S("a"), vtree.S("b")}}), val(fld(4, "p", prim(spec.String)), &spec.Val{Pattern: "^[a-z]+$"}),
@@ -183,7 +198,11 @@ func matrix() []*spec.Spec {
 			body(obj(nil, fld(100, "a", prim(spec.String)), fld(3, "b", prim(spec.String)), fld(50, "c", prim(spec.String))))))))
 	add(design("two-services", []*spec.UserType{point}, svc("first", meth("m", body(ref("Point")), body(ref("Point")))), svc("second", meth("m", body(ref("Point")), body(ref("Point"))), meth("other", nil, body(ref("Point"))))))
 	rec := utype("Tree", obj([]string{"label"}, fld(1, "label", prim(spec.String)), fld(2, "children", arr(ref("Tree"))), fld(3, "parent", ref("Tree"))))
-	add(design("recursive", []*spec.UserType{rec}, svc("trees", meth("m", body(ref("Tree")), body(ref("Tree"))))))
+	add(design("recursive-through-array", []*spec.UserType{rec}, svc("trees", meth("m", body(ref("Tree")), body(ref("Tree"))))))
+	list := utype("List", obj(nil, fld(1, "head", prim(spec.String)), fld(2, "tail", ref("List"))))
+	add(design("recursive-direct", []*spec.UserType{list}, svc("lists", meth("m", body(ref("List")), body(ref("List"))))))
+	// a validated message that reaches a recursive type which has no validation of its own
+	add(design("recursive-below-validation", []*spec.UserType{list}, svc("lists2", meth("m", body(obj([]string{"id"}, val(fld(1, "id", prim(spec.String)), &spec.Val{MinLen: &two}), fld(2, "list", ref("List")))), nil))))
 	add(design("probe-map-key-float", nil, svc("probes", meth("m", body(obj(nil, fld(1, "m", mp(spec.Float64, prim(spec.String))))), nil))))
 	return out
 }
